@@ -1064,6 +1064,7 @@ Lemma segment_step Lpre ws ws' st st' p L :
 Proof.
   intros J H Ha Hws Hal' Hwsal' Hnocc Hchp. pose proof wd_pos' as Hw. unfold insert_new_segment in H.
   destruct (close_and_add_segment ww ver st) as [stc| |] eqn:Ec; cbn [bind] in H; try discriminate.
+  destruct (negb (in_memory ww _)); [discriminate|].
   injection H as <-.
   destruct (close_spec _ _ _ _ Ec J Hws) as (Hinv' & Hwle & (G0 & EG & HcF & HcW) & H0 & Thw & F1 & F2 & F3 & F4 & F5).
   rewrite F1, F2, F3, F4, F5. set (st' := mkb _ _ _ _ _ _ _ _ _ _).
